@@ -58,6 +58,7 @@ const K_CONV: W = 7;
 const K_ALLOC: W = 8;
 const K_PAIR: W = 9;
 const K_COPY: W = 14;
+const K_PAIR_ALLOC: W = 15;
 
 fn case_table(c: &mut Cur) -> Result<Vec<W>, BadCase> {
     let code = c.next()?;
@@ -671,6 +672,7 @@ fn case_pair(c: &mut Cur) -> Result<Vec<W>, BadCase> {
             0 => ROp::Iter(c.next()?),
             2 => ROp::Seek(c.next()?),
             3 => ROp::Count,
+            6 => ROp::ReadAll,
             _ => return Err(BadCase),
         });
     }
@@ -766,6 +768,19 @@ fn case_pair(c: &mut Cur) -> Result<Vec<W>, BadCase> {
                     Ok(n) => o.extend([0, n as W]),
                     Err(e) => { o.push(1); render_error(&e, &mut o); }
                 },
+                ROp::ReadAll => match reader.read() {
+                    Ok(v) => {
+                        o.extend([0, v.len() as W]);
+                        for (s, rec) in v {
+                            render_shape(&s, &mut o);
+                            match rec.get("idx") {
+                                Some(dbase::FieldValue::Numeric(Some(x))) => o.push(*x as W),
+                                _ => o.push(-1),
+                            }
+                        }
+                    }
+                    Err(e) => { o.push(1); render_error(&e, &mut o); }
+                },
                 _ => {}
             }
         }
@@ -776,6 +791,66 @@ fn case_pair(c: &mut Cur) -> Result<Vec<W>, BadCase> {
         Err(_) => out.push(2),
     }
     Ok(out)
+}
+
+/// Kind 15: memory requested by the bulk read of the complete reader.  [n; announced rows; with index 0|1]:
+/// n point pairs are written in memory with the real Writer and dbase, the row count in the .dbf header is
+/// replaced by `announced`, then `Reader::read()` runs under the counting allocator.
+/// -> [peak bytes, largest single request, status (0 ok / 1 error / 2 panic), input bytes]
+fn case_pair_alloc(c: &mut Cur) -> Result<Vec<W>, BadCase> {
+    use std::convert::TryInto;
+    use std::io::Cursor;
+    use std::sync::atomic::Ordering::Relaxed;
+    let n = c.n()?;
+    let announced = c.next()?;
+    let with_index = c.next()? == 1;
+    if !c.at_end() {
+        return Err(BadCase);
+    }
+    let mut shp = Cursor::new(Vec::<u8>::new());
+    let mut shx = Cursor::new(Vec::<u8>::new());
+    let mut dbf = Cursor::new(Vec::<u8>::new());
+    {
+        let sw = ShapeWriter::with_shx(&mut shp, &mut shx);
+        let tw = dbase::TableWriterBuilder::new()
+            .add_numeric_field("idx".try_into().unwrap(), 10, 0)
+            .build_with_dest(&mut dbf);
+        let mut w = Writer::new(sw, tw);
+        for i in 0..n {
+            let mut rec = dbase::Record::default();
+            rec.insert("idx".to_string(), dbase::FieldValue::Numeric(Some(i as f64)));
+            w.write_shape_and_record(&Point::new(i as f64, 1.0), &rec).map_err(|_| BadCase)?;
+        }
+    }
+    let (shp, shx, mut dbf) = (shp.into_inner(), shx.into_inner(), dbf.into_inner());
+    if dbf.len() >= 8 {
+        dbf[4..8].copy_from_slice(&(announced as u32).to_le_bytes());
+    }
+    let input = shp.len() + dbf.len() + if with_index { shx.len() } else { 0 };
+    let base = LIVE.load(Relaxed);
+    PEAK.store(base, Relaxed);
+    LARGEST.store(0, Relaxed);
+    let r = std::panic::catch_unwind(std::panic::AssertUnwindSafe(move || -> W {
+        let sr = if with_index {
+            ShapeReader::with_shx(Cursor::new(shp), Cursor::new(shx))
+        } else {
+            ShapeReader::new(Cursor::new(shp))
+        };
+        let (sr, dr) = match (sr, dbase::Reader::new(Cursor::new(dbf))) {
+            (Ok(a), Ok(b)) => (a, b),
+            _ => return 1,
+        };
+        let mut reader = Reader::new(sr, dr);
+        match reader.read() {
+            Ok(v) => {
+                drop(v);
+                0
+            }
+            Err(_) => 1,
+        }
+    }));
+    let peak = PEAK.load(Relaxed).saturating_sub(base);
+    Ok(vec![peak as W, LARGEST.load(Relaxed) as W, r.unwrap_or(2), input as W])
 }
 
 /// Kind 14: a file copy. [shp bytes] -> the shapes are read with `ShapeReader::new(..).read()` (generic) and,
@@ -833,6 +908,7 @@ fn run_case(v: &[W]) -> Vec<W> {
         Ok(K_ALLOC) => case_alloc(&mut c),
         Ok(K_PAIR) => case_pair(&mut c),
         Ok(K_COPY) => case_copy(&mut c),
+        Ok(K_PAIR_ALLOC) => case_pair_alloc(&mut c),
         _ => Err(BadCase),
     };
     match r {
@@ -943,6 +1019,44 @@ fn path_mode(path: &str, keep: bool) {
     std::fs::remove_file(path).unwrap();
 }
 
+/// `runner pathpair <dir>`: two shapefiles with attribute tables whose names share their first part
+/// (`roads.north.shp`, `roads.south.shp`) are written side by side with `Writer::from_path`, then the first is
+/// read back with `Reader::from_path` and with `shapefile::read`: for each, one line
+/// `n (x of the shape, row id)*` or `-1`.
+fn pathpair_mode(dir: &str) {
+    use std::convert::TryInto;
+    let write = |name: &str, n: usize, x0: f64| {
+        let p = std::path::Path::new(dir).join(name);
+        let tb = dbase::TableWriterBuilder::new().add_numeric_field("idx".try_into().unwrap(), 10, 0);
+        let mut w = Writer::from_path(&p, tb).expect("create");
+        for i in 0..n {
+            let mut rec = dbase::Record::default();
+            rec.insert("idx".to_string(), dbase::FieldValue::Numeric(Some(100.0 * x0 + i as f64)));
+            w.write_shape_and_record(&Point::new(x0 + i as f64, 1.0), &rec).expect("write");
+        }
+    };
+    write("roads.north.shp", 5, 10.0);
+    write("roads.south.shp", 3, 20.0);
+    let p = std::path::Path::new(dir).join("roads.north.shp");
+    let show = |r: Result<Vec<(Shape, dbase::Record)>, Error>| match r {
+        Ok(v) => {
+            let mut out = vec![v.len() as i64];
+            for (s, rec) in v {
+                out.push(match s { Shape::Point(q) => q.x as i64, _ => -7 });
+                out.push(match rec.get("idx") { Some(dbase::FieldValue::Numeric(Some(x))) => *x as i64, _ => -1 });
+            }
+            let t: Vec<String> = out.iter().map(|x| x.to_string()).collect();
+            println!("{}", t.join(" "));
+        }
+        Err(_) => println!("-1"),
+    };
+    show(Reader::from_path(&p).and_then(|mut r| r.read()));
+    show(shapefile::read(&p));
+    for f in ["shp", "shx", "dbf"] {
+        let _ = std::fs::metadata(std::path::Path::new(dir).join(format!("roads.north.{}", f))).map(|m| println!("{} {}", f, m.len()));
+    }
+}
+
 /// `runner pathread <path> <type code | -1>`: the files at <path> (put there by the driver: any bytes, with or
 /// without a .shx beside them) read through the path-based one-liners: `read_shapes` (generic),
 /// `read_shapes_as::<T>` for the given type code, `ShapeReader::from_path(path)?.read()`; one line each.
@@ -1003,6 +1117,10 @@ fn main() {
     }
     if args.len() == 4 && args[1] == "pathread" {
         pathread_mode(&args[2], args[3].parse().unwrap());
+        return;
+    }
+    if args.len() == 3 && args[1] == "pathpair" {
+        pathpair_mode(&args[2]);
         return;
     }
     if args.len() == 4 && args[1] == "sweep" {
